@@ -141,3 +141,135 @@ theorem assign_refine_go (numsAll sizesAll : List Nat) (crcsAll : List (Option N
                     rw [this]; rfl
 
 end SevenZ
+
+namespace SevenZ
+open SevenZ.Impl
+
+/-! ### appending never moves an earlier member -/
+
+theorem skipZero_some_lt (nums : List Nat) : ∀ (fuel fi fo : Nat), skipZero nums fuel fi = some fo →
+    fo < nums.length ∧ nums[fo]? ≠ some 0 := by
+  intro fuel
+  induction fuel with
+  | zero => intro fi fo h; simp [skipZero] at h
+  | succ fuel ih =>
+    intro fi fo h
+    unfold skipZero at h
+    cases hg : nums[fi]? with
+    | none => rw [hg] at h; simp at h
+    | some v =>
+      rw [hg] at h
+      cases v with
+      | zero => exact ih _ _ h
+      | succ k =>
+        simp only [Option.some.injEq] at h
+        subst h
+        exact ⟨by
+          have := List.getElem?_eq_some_iff.1 hg
+          exact this.1, by rw [hg]; simp⟩
+
+theorem skipZero_ext (nums nums' : List Nat) : ∀ (fuel fuel' fi fo : Nat), skipZero nums fuel fi = some fo →
+    fuel ≤ fuel' → skipZero (nums ++ nums') fuel' fi = some fo := by
+  intro fuel
+  induction fuel with
+  | zero => intro fuel' fi fo h; simp [skipZero] at h
+  | succ fuel ih =>
+    intro fuel' fi fo h hle
+    cases fuel' with
+    | zero => omega
+    | succ fuel' =>
+      unfold skipZero at h ⊢
+      cases hg : nums[fi]? with
+      | none => rw [hg] at h; simp at h
+      | some v =>
+        have hlt : fi < nums.length := (List.getElem?_eq_some_iff.1 hg).1
+        rw [List.getElem?_append_left hlt, hg]
+        rw [hg] at h
+        cases v with
+        | zero => exact ih fuel' _ _ h (by omega)
+        | succ k => exact h
+
+/-- running the cursor over `flags ++ flags'` with every list extended at the end gives, for
+    the first `flags.length` members, exactly what it gave before -/
+theorem assignGo_prefix (nums sizes : List Nat) (crcs : List (Option Nat)) (nums' sizes' : List Nat) (crcs' : List (Option Nat))
+    (flags' : List Bool) : ∀ (flags : List Bool) (folder input outs off : Nat) (r : List Slot4),
+    assignGo nums sizes crcs flags folder input outs off = some r →
+    ∀ r', assignGo (nums ++ nums') (sizes ++ sizes') (crcs ++ crcs') (flags ++ flags') folder input outs off = some r' →
+      r'.take flags.length = r := by
+  intro flags
+  induction flags with
+  | nil =>
+    intro folder input outs off r h r' _
+    simp [assignGo] at h
+    subst h; simp
+  | cons b fs ih =>
+    intro folder input outs off r h r' h'
+    cases b with
+    | true =>
+      simp only [assignGo, List.cons_append] at h h'
+      cases hr : assignGo nums sizes crcs fs folder input outs off with
+      | none => rw [hr] at h; simp at h
+      | some r0 =>
+        rw [hr] at h
+        cases hr' : assignGo (nums ++ nums') (sizes ++ sizes') (crcs ++ crcs') (fs ++ flags') folder input outs off with
+        | none => rw [hr'] at h'; simp at h'
+        | some r0' =>
+          rw [hr'] at h'
+          simp only [Option.map_some, Option.some.injEq] at h h'
+          subst h h'
+          simp only [List.length_cons, List.take_succ_cons, List.cons.injEq, true_and]
+          exact ih _ _ _ _ _ hr _ hr'
+    | false =>
+      simp only [assignGo, List.cons_append] at h h'
+      cases hsk : skipZero nums (nums.length + 1) folder with
+      | none => rw [hsk] at h; simp at h
+      | some fo =>
+        rw [hsk] at h
+        have hsk' := skipZero_ext nums nums' _ ((nums ++ nums').length + 1) folder fo hsk (by simp)
+        rw [hsk'] at h'
+        have hfo := (skipZero_some_lt nums _ _ _ hsk).1
+        cases hs : sizes[outs]? with
+        | none => rw [hs] at h; simp at h
+        | some s =>
+          cases hc : crcs[outs]? with
+          | none => rw [hs, hc] at h; simp at h
+          | some c =>
+            have hs' : (sizes ++ sizes')[outs]? = some s := by
+              rw [List.getElem?_append_left (List.getElem?_eq_some_iff.1 hs).1, hs]
+            have hc' : (crcs ++ crcs')[outs]? = some c := by
+              rw [List.getElem?_append_left (List.getElem?_eq_some_iff.1 hc).1, hc]
+            have hgd : (nums ++ nums').getD fo 0 = nums.getD fo 0 := by
+              simp [List.getD, List.getElem?_append_left hfo]
+            rw [hs, hc] at h
+            rw [hs', hc'] at h'
+            simp only at h h'
+            rw [hgd] at h'
+            by_cases hlast : input + 1 ≥ nums.getD fo 0
+            · simp only [hlast, if_true] at h h'
+              cases hr : assignGo nums sizes crcs fs (fo + 1) 0 (outs + 1) 0 with
+              | none => rw [hr] at h; simp at h
+              | some r0 =>
+                rw [hr] at h
+                cases hr' : assignGo (nums ++ nums') (sizes ++ sizes') (crcs ++ crcs') (fs ++ flags') (fo + 1) 0 (outs + 1) 0 with
+                | none => rw [hr'] at h'; simp at h'
+                | some r0' =>
+                  rw [hr'] at h'
+                  simp only [Option.map_some, Option.some.injEq] at h h'
+                  subst h h'
+                  simp only [List.length_cons, List.take_succ_cons, List.cons.injEq, true_and]
+                  exact ih _ _ _ _ _ hr _ hr'
+            · simp only [hlast, if_false] at h h'
+              cases hr : assignGo nums sizes crcs fs fo (input + 1) (outs + 1) (off + s) with
+              | none => rw [hr] at h; simp at h
+              | some r0 =>
+                rw [hr] at h
+                cases hr' : assignGo (nums ++ nums') (sizes ++ sizes') (crcs ++ crcs') (fs ++ flags') fo (input + 1) (outs + 1) (off + s) with
+                | none => rw [hr'] at h'; simp at h'
+                | some r0' =>
+                  rw [hr'] at h'
+                  simp only [Option.map_some, Option.some.injEq] at h h'
+                  subst h h'
+                  simp only [List.length_cons, List.take_succ_cons, List.cons.injEq, true_and]
+                  exact ih _ _ _ _ _ hr _ hr'
+
+end SevenZ
